@@ -21,7 +21,7 @@ from vf.pyvc import stdlib
 from vf.pyvc.contracts import Contract, Registry
 from vf.pyvc.engine import Closure, MObj, OutOfSubset, PyConst, lift
 from vf.pyvc.run import run_contracts
-from vf.pyvc.types import TBool, TEnum, TInt, TObj, TOpt, TRec, TSeq, TStr, V
+from vf.pyvc.types import TBool, TEnum, TInt, TObj, TOpt, TRec, TSeq, TSet, TStr, V
 from vf.proofs.c20 import FACTOR, factor_axioms
 
 SF = TSeq(FACTOR).sort()
@@ -201,11 +201,20 @@ def n_sorted_term_factors(eng, args, kw, n, st):
 
 
 def n_FTerm(eng, args, kw, n, st):
-    """Term(factors=sorted(term.factors)) inside the SORT orderer: equal to `term` under Term.__eq__ (same factor set), same degree"""
+    """Term(factors=sorted(term.factors)) inside the SORT orderer: equal to `term` under Term.__eq__ (same factor set), same degree.
+    Term([Factor(...), ...]) built from explicit factors: some term (nothing is known about it)."""
     it = kw.get("factors", args[0] if args else None)
-    if not (isinstance(it, V) and it.ty == TERM):
-        raise OutOfSubset(n, "Term(...) from something other than the factors of one term")
-    return it
+    if isinstance(it, V) and it.ty == TERM:
+        return it
+    if isinstance(it, tuple) and all(isinstance(x, V) and x.ty == TObj("FactorObj") for x in it):
+        return eng.fresh(st, TERM, "new_term")
+    if isinstance(it, V) and isinstance(it.ty, TSeq) and it.ty.elem == TObj("FactorObj"):
+        return eng.fresh(st, TERM, "new_term")
+    raise OutOfSubset(n, "Term(...) from something other than the factors of one term or explicit Factor objects")
+
+
+def n_FactorObj(eng, args, kw, n, st):
+    return eng.fresh(st, TObj("FactorObj"), "factor")
 
 
 def n_ordering(eng, args, kw, n, st):
@@ -250,7 +259,7 @@ def build_formula(reg=None):
 
     def G():
         g = {"OrderingMethod": PyConst("OrderingMethod"), "OrderingMethod.__call__": n_ordering, "sorted": n_sorted_terms,
-             "Term": PyConst("Term"), "Term.__call__": n_FTerm}
+             "Term": PyConst("Term"), "Term.__call__": n_FTerm, "Factor": PyConst("Factor"), "Factor.__call__": n_FactorObj}
         for m in ORD.members:
             g["OrderingMethod." + m] = V(ORD, ORD.member(m))
         return g
@@ -310,6 +319,10 @@ def build_formula(reg=None):
         eng.apply_contract(init, [obj] + list(args), kw, n, st)
         return obj
 
+    # (a formula's `required_variables`: an opaque set of names - if `differentiate` ever consults it, nothing is known about its content)
+    reg.add(Contract("SimpleFormula.required_variables", params={"self": "Py"}, returns=TSet(TStr), is_property=True, trusted=True,
+                     notes="Formula.required_variables: an unconstrained set of names (AST variable extraction is bounded only)"),
+            as_method=("SimpleFormula", "required_variables"))
     dt = Contract("differentiate_term", params={"term": TERM, "wrt": TSeq(TStr), "use_sympy": "Bool"}, returns=TERM, trusted=True, spec_env=FENV,
                   ensures=["result == dterm(term, wrt, use_sympy)"],
                   notes="differentiate_term is a function of its arguments; its full contract is proved in vf/proofs/c20.py")
